@@ -175,6 +175,7 @@ def r2b_no_write_after_add(report, repo):
     an, ac = adds[0]
     arg = dotted(ac.args[0]) or ''
     root = arg.split('.')[0]
+    roots = lib.copy_class(f, root)  # names standing for the same record
     later = g.reach([an], avoid_edge=lambda a, l, b: l == 'exc')
     bad = []
     for n in later:
@@ -183,12 +184,12 @@ def r2b_no_write_after_add(report, repo):
       for t in core.assigned_targets(n.ast):
         d = dotted(t) or ''
         if isinstance(t, (ast.Attribute, ast.Subscript)) and (
-            d.startswith(arg + '.') or d.startswith(root + '.')):
+            d.startswith(arg + '.') or d.split('.')[0] in roots):
           bad.append(n)
       for sub in n.subnodes():
         if isinstance(sub, ast.Call) and isinstance(sub.func, ast.Attribute) \
             and sub.func.attr in ('finalize', 'finalize_phase') and (
-                dotted(sub.func.value) or '').startswith(root):
+                dotted(sub.func.value) or '').split('.')[0] in roots:
           bad.append(n)
     report.check(
         not bad, rule, f.qualname, 'write-after-add', an.ast,
